@@ -394,6 +394,181 @@ def correspond_scan(rnd, n, driver=DEFAULT_DRIVER, keep=20):
     return {"counts": counts, "disagreements": bad}
 
 
+# ------------------------------------------------------------------ lists WITH negation lines (`!pattern`)
+#
+# The Lean pattern model covers the six positive classes only; for lists with `!` lines the oracle is
+#   (1) an independent reading of gitignore's rule "the LAST matching line decides" over the six classes
+#       (`select_real.pattern_matches`, which the positive stream compares with pathspec on every decision), and
+#   (2) the real `git check-ignore` (when git is installed) on the same lines.
+# A path is JUDGED iff (1) and (2) agree on it. They differ where git decides per directory ENTRY while it walks:
+# a file below an excluded directory cannot be re-included (`vendor/` + `!vendor/x.py`; `!*.py` below the built-in
+# `build`), and a `!` line that matches a directory re-includes that entry only, not the files below it (`!A/`,
+# `!*.py` with a directory `test.py`), whereas (1) - and pathspec's PathSpec - match whole file paths. There the
+# property text ("not matched by the ... exclusions") does not say which reading is meant, so such paths are
+# counted (`git_differs_not_judged`) and not judged. All user lines of a case come from ONE source
+# (option, .codelimit.yml or root .gitignore): the order of lines across sources is not part of the property.
+
+_GIT = {"checked": False, "exe": None, "repo": None}
+
+
+def git_exe():
+    if not _GIT["checked"]:
+        _GIT["checked"] = True
+        exe = shutil.which("git")
+        if exe:
+            repo = os.path.realpath(tempfile.mkdtemp(prefix="clgit_"))
+            env = git_env(repo)
+            p = subprocess.run([exe, "init", "-q", os.path.join(repo, "r")], capture_output=True, text=True, env=env)
+            if p.returncode == 0:
+                _GIT["exe"], _GIT["repo"] = exe, repo
+                import atexit
+                atexit.register(shutil.rmtree, repo, True)
+    return _GIT["exe"]
+
+
+def git_env(home):
+    env = {k: v for k, v in os.environ.items() if not k.startswith("GIT_")}
+    env.update(HOME=home, XDG_CONFIG_HOME=os.path.join(home, "xdg"), GIT_CONFIG_NOSYSTEM="1", LC_ALL="C")
+    return env
+
+
+def git_ignored(lines, paths):
+    """real git on `lines` as the root .gitignore -> [bool per path] or None (no git / git refused)"""
+    exe = git_exe()
+    if not exe:
+        return None
+    r = os.path.join(_GIT["repo"], "r")
+    with open(os.path.join(r, ".gitignore"), "w") as f:
+        f.write("".join(l + "\n" for l in lines))
+    ask = ["/".join(p) for p in paths]
+    p = subprocess.run([exe, "check-ignore", "--stdin", "-z", "--no-index"], input="".join(a + "\0" for a in ask).encode(),
+                       capture_output=True, cwd=r, env=git_env(_GIT["repo"]))
+    if p.returncode not in (0, 1):
+        return None
+    hit = set(p.stdout.decode().split("\0"))
+    return [a in hit for a in ask]
+
+
+def reading_excluded(lines, comps):
+    """gitignore's rule over the six classes: the last line that matches the path decides; `!` lines re-include"""
+    verdict = False
+    for l in lines:
+        neg = l.startswith("!")
+        if sr.pattern_matches(l[1:] if neg else l, comps):
+            verdict = not neg
+    return verdict
+
+
+def negation_for(rnd, comps):
+    """a `!` line (of the six classes) that matches the given path"""
+    last = comps[-1]
+    r = rnd.random()
+    if r < 0.35 and last[0] not in "!#":
+        return "!" + last                                        # bare name
+    if r < 0.55 and suffixes_of(last):
+        return "!*" + rnd.choice(suffixes_of(last))              # *.ext
+    if r < 0.7 and len(comps) > 1 and comps[0][0] not in "!#":
+        return "!" + comps[0] + "/*"                             # a/*
+    if len(comps) > 1 and comps[0][0] not in "!#":
+        return "!" + "/".join(comps)                             # a/b/c
+    return "!/" + "/".join(comps)                                # /a
+
+
+def gen_negation_case(rnd):
+    names = [x for x in gen_names(rnd) if x not in (".", "..")]
+    tree = gen_tree_from(rnd, names)
+    files = [f for f, _ in sr.all_files(tree)]
+    universe = sorted(set(files) | set(random_universe(rnd, names, k=60, max_depth=5)))
+    lines = []
+    for _ in range(rnd.choice([1, 2, 2, 3, 4])):
+        lines.append(gen_pattern(rnd, names + SUPPORTED_FILES[:6])[0])
+        if rnd.random() < 0.75:
+            full = list(sr.PINNED_BUILTIN) + lines
+            cands = [p for p in (files if rnd.random() < 0.8 and files else universe)
+                     if reading_excluded(full, p) and not any(c in sr.PINNED_BUILTIN for c in p)]
+            if cands:
+                lines.append(negation_for(rnd, rnd.choice(cands)))
+            else:
+                lines.append("!" + gen_pattern(rnd, names)[0])
+    lines = [l for l in lines if "[" not in l]
+    src = rnd.choice(["option", "config", "gitignore"])
+    sources = {"option": [], "config": [], "gitignore": []}
+    sources[src] = lines
+    return {"stream": "gitignore-negation", "patterns": lines, "sources": sources, "tree": sr.tree_to_json(tree),
+            "universe": [list(p) for p in universe]}
+
+
+def judge_negation_case(case):
+    """-> (failure | None, counts)"""
+    lines = list(sr.PINNED_BUILTIN) + case["patterns"]
+    tree = sr.tree_from_json(case["tree"])
+    files = [f for f, _ in sr.all_files(tree)]
+    universe = sorted({tuple(p) for p in case["universe"]} | {tuple(f) for f in files})
+    reading = [reading_excluded(lines, p) for p in universe]
+    git = git_ignored(lines, universe)
+    judged = [git is None or g == r for g, r in zip(git or reading, reading)]
+    counts = {"decisions": len(universe), "judged": sum(judged), "git_differs_not_judged": len(universe) - sum(judged),
+              "reincluded": 0, "wrong_decisions": 0, "scanned_keys": 0, "files": len(files)}
+    positive_only = [l for l in lines if not l.startswith("!")]
+    bad = []
+    real = real_decisions(case["sources"], universe)
+    for p, rl, rd, j in zip(universe, real, reading, judged):
+        if j and not rd and reading_excluded(positive_only, p):
+            counts["reincluded"] += 1
+        if j and rl != rd:
+            counts["wrong_decisions"] += 1
+    ok = dict(zip(universe, judged))
+    excl = dict(zip(universe, reading))
+    with sr.TempTree(tree) as T:
+        T.chdir(T.tmp)
+        sr.install_exclusions(T.root, case["sources"], T.root)
+        try:
+            entries, _ = sr.run_scan(T.root)
+            keys = {e[0] for e in entries}
+        except Exception as e:  # noqa
+            return ({"input": case, "observed": "%s: %s" % (type(e).__name__, e), "required": ["scan completes"]}, counts)
+    counts["scanned_keys"] = len(keys)
+    missing, extra = [], []
+    for f in files:
+        if not ok.get(tuple(f), True) or sr.spec_hidden(f) or sr.expected_language(f[-1]) is None:
+            if sr.spec_hidden(f) or sr.expected_language(f[-1]) is None:
+                if "/".join(f) in keys:
+                    extra.append("/".join(f))
+            continue
+        k = "/".join(f)
+        if excl[tuple(f)] and k in keys:
+            extra.append(k)
+        if not excl[tuple(f)] and k not in keys:
+            missing.append(k)
+    if missing or extra:
+        bad.append("qualifying files (last matching exclusion line is a `!` line or none matches%s) not scanned: %s; scanned although excluded: %s"
+                   % (", git check-ignore agrees" if git is not None else "", missing[:5], extra[:5]))
+    if counts["wrong_decisions"] and not bad:
+        w = [("/".join(p), rl) for p, rl, rd, j in zip(universe, real, reading, judged) if j and rl != rd][:5]
+        bad.append("generate_exclude_spec + is_excluded decide (path, excluded) %s; the last matching line says the opposite%s"
+                   % (w, " and so does git check-ignore" if git is not None else ""))
+    if bad:
+        small = {k: case[k] for k in ("stream", "patterns", "sources", "tree")}
+        small["universe"] = [list(p) for p, rl, rd, j in zip(universe, real, reading, judged) if j and rl != rd][:8] or case["universe"][:8]
+        return ({"input": small, "observed": {"scanned": sorted(keys)[:12]}, "required": bad}, counts)
+    return (None, counts)
+
+
+def correspond_negation(rnd, n, keep=10):
+    total = {"cases": n, "git": bool(git_exe()), "lists_with_negation": 0}
+    fails = []
+    for _ in range(n):
+        c = gen_negation_case(rnd)
+        total["lists_with_negation"] += 1 if any(l.startswith("!") for l in c["patterns"]) else 0
+        f, counts = judge_negation_case(c)
+        for k, v in counts.items():
+            total[k] = total.get(k, 0) + v
+        if f:
+            fails.append(f)
+    fails.sort(key=lambda f: len(json.dumps(f["input"])))
+    return {"counts": total, "failures": fails[:keep]}
+
+
 def main():
     ap = argparse.ArgumentParser()
     ap.add_argument("-n", type=int, default=1200)
